@@ -12,7 +12,7 @@ META = {
              'the window is not the whole range or the source is permuted / has extra datasets'),
     'required_obs': {'quick': ['cmp-dict', 'cmp-struct', 'cmp-hdf5', 'cmp-inline-window', 'window-dict', 'window-struct',
                                'window-hdf5', 'window-inline', 'permuted', 'extra-datasets', 'mapping', 'open-ended',
-                               'frames-decoded', 'fastpath-permuted', 'fastpath-aligned', 'fastpath-view', 'fastpath-packed']},
+                               'frames-decoded', 'fastpath-permuted', 'fastpath-aligned', 'fastpath-view', 'fastpath-packed', 'same-data-object-reused']},
     'exhaustive_windows': {'quick': ['all windows 0 <= from < to <= N for N = 4, every source kind'],
                            'thorough': ['all windows 0 <= from < to <= N for N in 1..6, every source kind x input chunk {None,1,2}']},
     'assumptions': ['origins carry explicit file_set_number and creation_time so that nothing random enters the bytes'],
@@ -129,6 +129,25 @@ def run_case(case):
             spw['write'].update({'from_idx': a, 'to_idx': b})
             bump('window-struct')
             compare(refw, spw, 'struct:window', f"fast-window:{wsave.get('struct_variant')}", True, decode=True)
+        # one data object, several writes: sources are equivalent however often the caller re-uses them
+        from vf import spec as S
+        spd = copy.deepcopy(sp)
+        b = S.build(spd)
+        if b.error is None:
+            data_obj = S.make_write_data(spd, b, harness.scratch_dir())
+            outs = []
+            for rep in range(3):
+                path = harness.fresh_path()
+                w_ = S.do_write(spd, S.build(spd), path, harness.scratch_dir(), data=data_obj)
+                outs.append(open(path, 'rb').read() if w_[0] == 'ok' else None)
+            bump('same-data-object-reused')
+            evals += 1
+            sigs.append(f"reuse:{wsave.get('struct_variant')}")
+            if ref.data is not None and any(o != ref.data for o in outs):
+                k_ = next(i for i, o in enumerate(outs) if o != ref.data)
+                vio.append({'prop': PROP, 'kind': 'bytes-differ', 'mech': 'bytes:struct:reused-data-object',
+                            'detail': f'write #{k_ + 1} from the same structured array differs from the inline reference '
+                                      f'(first write {"equal" if outs[0] == ref.data else "differs"})', 'variant': spd['write']})
         sample = {'kind': 'struct fast path', 'rows': N, 'variant': wsave.get('struct_variant'), 'permuted': wsave.get('perm_seed') is not None}
     else:
         r = gen.rng(seed, PROP, case['stratum'], case['index'])
